@@ -191,6 +191,72 @@ def container_cases(rng, n):
     return out
 
 
+# ---- "a present optional compares equal to the plain value it holds": every scalar kind and lists, the optional being a
+# variable, a function result, a parameter, a class field, a list element; `==` and `!=`, optional on either side; the
+# plain operand always has the declared type T (a variable), so that no other typing rule is involved
+EQ_TYPES = [("int", "5", "6"), ("str", '"a"', '"b"'), ("float", "1.5", "2.5"), ("byte", "0b101", "0b1"), ("bool", "true", "false"),
+            ("bigint", "B5", "B6"), ("[int...]", "[1, 2]", "[1, 3]"), ("[str...]", '["x", "y"]', '["x"]'), ("[bool...]", "[true]", "[false]"),
+            ("[float...]", "[1.5]", "[2.5]")]
+EQ_POSITIONS = ["variable", "result", "parameter", "field", "element"]
+
+
+def equality_cases():
+    """-> [(id, source, expected lines)]"""
+    out = []
+    for ty, v, w in EQ_TYPES:
+        for pos in EQ_POSITIONS:
+            src = "p: %s = %s\nq: %s = %s\n" % (ty, v, ty, w)
+            src += "mk = fn(x: %s, present: bool) -> %s? {\n  if present {\n    return x\n  }\n  return nil\n}\n" % (ty, ty)
+            if pos == "variable":
+                src += "o: %s? = %s\nn: %s? = nil\n" % (ty, v, ty)
+                o, n = "o", "n"
+            elif pos == "result":
+                o, n = "mk(p, true)", "mk(p, false)"
+            elif pos == "field":
+                src += "class Holder {\n  v: %s?\n  constructor(self, v: %s?) {\n    self.v = v\n  }\n}\nh = Holder(p)\nhn = Holder(nil)\n" % (ty, ty)
+                o, n = "h.v", "hn.v"
+            elif pos == "element":
+                src += "cells: [%s?...] = [mk(p, true), mk(p, false)]\n" % ty
+                o, n = "cells[0]", "cells[1]"
+            exp = []
+            if pos == "parameter":
+                src += "same = fn(o: %s?, x: %s) -> bool {\n  return o == x\n}\ndiff = fn(x: %s, o: %s?) -> bool {\n  return x != o\n}\n" % (ty, ty, ty, ty)
+                for call, e in (("same(p, p)", True), ("same(p, q)", False), ("same(nil, p)", False), ("diff(p, p)", False), ("diff(q, p)", True), ("diff(p, nil)", True)):
+                    src += "print %s\n" % call
+                    exp.append("true" if e else "false")
+            else:
+                for a, op, b, e in ((o, "==", "p", True), ("p", "==", o, True), (o, "==", "q", False), (o, "!=", "p", False), ("q", "!=", o, True),
+                                    (n, "==", "p", False), ("p", "!=", n, True)):
+                    src += "print %s %s %s\n" % (a, op, b)
+                    exp.append("true" if e else "false")
+                src += "if %s == p {\n  print \"then\"\n} else {\n  print \"else\"\n}\n" % o
+                exp.append("then")
+            out.append(("%s/%s" % (ty, pos), src, exp))
+    return out
+
+
+# ---- the target of `?=`: `a ?= e` stores the value of e - nil included - in a, so a variable whose declared type is NOT
+# optional cannot be the target of an optional e: if such a program is accepted, a non-optional variable holds nil (and
+# the first use of it fails at run time).  Only cases in which e IS nil at run time are generated.
+def unwrap_target_cases():
+    """-> [(id, source)]: programs that must be rejected at compile time"""
+    out = []
+    for ty, v, use in (("int", "3", "v + 1"), ("str", '"s"', "v.len()"), ("bool", "true", "!v"), ("float", "1.5", "v * 2.0"), ("[int...]", "[1]", "v.len()")):
+        for how, e in (("variable", "e"), ("result", "none()")):
+            for where in ("statement", "if", "while", "function"):
+                pre = "none = fn() -> %s? {\n  return nil\n}\ne: %s? = nil\nprint \"MARK\"\n" % (ty, ty)
+                if where == "statement":
+                    body = "v: %s = %s\nt = v ?= %s\nprint t\nprint %s\n" % (ty, v, e, use)
+                elif where == "if":
+                    body = "v: %s = %s\nif v ?= %s {\n  print \"present\"\n}\nprint %s\n" % (ty, v, e, use)
+                elif where == "while":
+                    body = "v: %s = %s\nwhile v ?= %s {\n  break\n}\nprint %s\n" % (ty, v, e, use)
+                else:
+                    body = "f = fn(v: %s) {\n  if v ?= %s {\n    print \"present\"\n  }\n  print %s\n}\nf(%s)\n" % (ty, e, use, v)
+                out.append(("%s/%s/%s" % (ty, how, where), pre + body))
+    return out
+
+
 def run(ctx):
     ok = core.coq_props(ctx, "Props/C12.v")
     binary = core.build_repo()
@@ -239,12 +305,42 @@ def run(ctx):
             ctx.report("optional-in-container", "optional field / element / map value / method result: " + bad,
                        {"program": src, "expected": exp, "expected_failure_line": fl, "observed": got, "rc": rc, "stderr": err[-400:]})
     ctx.cov["container_cases"] = {"programs": n_c, "ending_in_get_of_nil": n_cfail}
+    # ---- present optional == plain value (exhaustive catalogue, both tiers)
+    eqs = equality_cases()
+    n_eq = 0
+    for (cid, src, exp), (_, _, rc, out, err) in zip(eqs, programs.pmap(lambda c: one((c[1], c[2])), eqs)):
+        n_eq += 1
+        got = out.split("\n")[:-1]
+        if rc == 0 and got == exp:
+            continue
+        rejected = "Did not compile successfully" in err
+        diag = [l.strip() for l in out.splitlines() if l.strip().startswith("=")]
+        ctx.report("present-optional-eq-plain:" + ("rejected" if rejected else "wrong-answer"),
+                   "comparing an optional (%s) with a plain value of its type: %s" % (cid, ("the comparison is rejected at compile time: %s" % diag[:1]) if rejected
+                                                                                      else "printed %r (exit %d), a present optional equals the value it holds: %r" % (got, rc, exp)),
+                   {"case": cid, "program": src, "expected": exp, "observed": got, "rc": rc, "stderr": (out + err)[-500:], "how": "mscript run main.ms -q"})
+    # ---- `?=` into a variable whose type cannot hold nil
+    uts = unwrap_target_cases()
+    n_ut = 0
+    for (cid, src), (_, _, rc, out, err) in zip(uts, programs.pmap(lambda c: one((c[1], None)), uts)):
+        n_ut += 1
+        if "Did not compile successfully" in err and "MARK" not in out:
+            continue
+        ctx.report("unwrap-into:non-optional-target",
+                   "`v ?= e` with v declared non-optional and e nil (%s) is accepted: `?=` stores the value of e, so v - not of optional type - holds nil; exit %d, %s"
+                   % (cid, rc, ([l.strip() for l in err.splitlines() if re.match(r"\s+\d+: ", l)] or [err.strip()[-160:]])[-1][:160] if rc else "ran to completion: %r" % out.split("\n")[-4:]),
+                   {"case": cid, "program": src, "expected": "rejected at compile time (the target cannot hold the value of e)", "rc": rc, "stdout": out[-300:], "stderr": err[-500:],
+                    "how": "mscript run main.ms -q"})
+    ctx.cov["present_optional_equality_cases"] = {"programs": n_eq, "types": [t[0] for t in EQ_TYPES], "positions": EQ_POSITIONS}
+    ctx.cov["unwrap_into_non_optional_target_cases"] = n_ut
     nils = sum(1 for r in results if r["status"] == "ran" and r["t3"][0] == "ok" and "unwrap of" in r["real"]["stderr"])
-    ctx.cov["evaluations"] = st["programs"] + n_u + n_c
+    ctx.cov["evaluations"] = st["programs"] + n_u + n_c + n_eq + n_ut
     ctx.cov["distinct_nontrivial"] = len(set(r["proj"]["files"]["main.ms"] for r in results if r["status"] == "ran"))
     ctx.cov["rule"] = ("optional programs: int?/str? variables, parameters and results, each use of == nil / == value / or (literal, variable, "
                        "side-effecting and nested fallback) / get in statement, if and while position with random nil/present; `?=` in if / statement / "
-                       "while position against a Python oracle; non-trivial = distinct program that ran")
+                       "while position against a Python oracle; present optional == / != plain value for every scalar kind and four list types x "
+                       "{variable, function result, parameter, class field, list element} (exhaustive); `?=` into a non-optional variable with e nil "
+                       "(5 types x variable/result x statement/if/while/function) must be rejected; non-trivial = distinct program that ran")
     ctx.cov["statistics"] = st
     ctx.cov["programs_stopped_by_get_nil_with_matching_span"] = nils
     ctx.cov["unwrap_into_cases"] = n_u
@@ -252,5 +348,5 @@ def run(ctx):
     ctx.sample({"program": projs[0]["files"]["main.ms"][:900]})
     ctx.cov["trusted_base"] = ["Coq 8.16.1 kernel; no axioms", "extraction + drivers", "hooks H1/H3", "Python oracle for ?="]
     ctx.assumptions = ["Lang/Eval.v is the specification for ==nil / or / get", "optionals of list and class type are outside the Coq models"]
-    spec_failed = any(v[0].startswith(("semantics:", "unwrap-into")) for v in ctx.viol)
+    spec_failed = any(v[0].startswith(("semantics:", "unwrap-into", "present-optional-eq-plain", "optional-in-container")) for v in ctx.viol)
     core.proof_or_search(ctx, ok, ["C12 obligations"], spec_failed)
